@@ -7,7 +7,10 @@
 (*   processing loop --> commit log --ack over NATS--> api server --> pub   *)
 (*                                                                         *)
 (* Abstract state                                                          *)
-(*   cfg   = [occ, batch, path]  stream has concurrency control; server     *)
+(*   cfg   = [occ, batch, path, src]  stream has concurrency control (src =  *)
+(*           where that comes from: the per-stream option of the request,   *)
+(*           the server-wide setting, or the option against the server-wide *)
+(*           setting); server                                               *)
 (*           batch.max.messages; API path of the publishers: "async"        *)
 (*           (PublishAsync stream, sends are pipelined) | "sync" (unary     *)
 (*           Publish RPC: one outstanding publish per publisher)            *)
@@ -265,7 +268,7 @@ DoInstallAs(keeps) ==
 DoInstall == DoInstallAs(TRUE)
 
 Init ==
-  /\ cfg \in [occ : BOOLEAN, batch : {1, 2}, path : {"async", "sync"}]
+  /\ cfg \in [occ : BOOLEAN, batch : {1, 2}, path : {"async", "sync"}, src : {"request", "server", "override"}]
   /\ msgs = <<>> /\ net = {} /\ chan = <<>> /\ log = <<>> /\ ackq = {}
   /\ clk = 1 /\ known = [p \in Pubs |-> 0] /\ paused = FALSE
   /\ eocc = cfg.occ /\ snap \in {"none", "pred", "cur"}
